@@ -13,11 +13,12 @@ open Matrix
 section loop
 variable {S G D : Type}
 
-/-- C15.a (D11 as it is) `loop_int_identical`: with an **integer** seed every repetition of the single-setting entry
-point re-creates the same generator, so all repetitions are the same draw; the seed object and the global state are
-untouched. -/
-theorem loop_int_identical (P : Prng S G D) (s : S) (glob : G) (n : Nat) :
-    loop P n (.int s) glob = (List.replicate n (P.draw (P.ofSeed s)).1, .int s, glob) :=
+/-- C15.a `loop_int_segments`: with an **integer** seed the generator is created once, before the loop: repetition `k`
+draws from the state reached after `k` earlier repetitions (consecutive segments of the one stream seeded with `s`);
+the seed object and the global state are untouched. -/
+theorem loop_int_segments (P : Prng S G D) (s : S) (glob : G) (n : Nat) :
+    loop P n (.int s) glob
+      = ((List.range n).map (fun k => (P.draw (advance P k (P.ofSeed s))).1), .int s, glob) :=
   loop_int P s glob n
 
 /-- C15.a `sim_deterministic` (integer seed): the result is a function of (seed, repetition count) — the global numpy
@@ -25,6 +26,11 @@ state neither influences it nor is changed by it. -/
 theorem loop_int_pure (P : Prng S G D) (s : S) (g₁ g₂ : G) (n : Nat) :
     (loop P n (.int s) g₁).1 = (loop P n (.int s) g₂).1 ∧ (loop P n (.int s) g₁).2.2 = g₁ := by
   simp [loop_int]
+
+/-- C15.a: an integer seed gives exactly the repetitions of a generator object freshly seeded with it. -/
+theorem loop_int_eq_gen (P : Prng S G D) (s : S) (glob : G) (n : Nat) :
+    (loop P n (.int s) glob).1 = (loop P n (.gen (P.ofSeed s)) glob).1 := by
+  simp [loop_int, loop_gen]
 
 /-- C15.b `reps_consecutive_segments`: with a **Generator object** repetition `k` draws from the state reached after
 `k` earlier repetitions (consecutive segments of one stream), and the object is left advanced by `n` draws. -/
@@ -39,19 +45,22 @@ theorem loop_none_segments (P : Prng S G D) (glob : G) (n : Nat) :
       = ((List.range n).map (fun k => (P.draw (advance P k glob)).1), .none, advance P n glob) :=
   loop_none P n glob
 
+/-- C15.b `reps_distinct_streams`: the repetitions are pairwise different draws whenever the stream does not repeat
+itself within `n` segments (a property of the generator, assumed) — for every kind of seed argument. -/
+theorem reps_distinct_streams (P : Prng S G D) (a : SeedArg S G) (glob : G) (n : Nat)
+    (hno : ∀ g : G, ((List.range n).map fun k => (P.draw (advance P k g)).1).Nodup) :
+    ((loop P n a glob).1).Nodup := by
+  cases a with
+  | int s => rw [loop_int]; exact hno _
+  | gen g => rw [loop_gen]; exact hno _
+  | none => rw [loop_none]; exact hno _
+
 end loop
 
-/-- C15.b negation witness (concrete, toy congruential generator whose successive draws differ):
-`reps_distinct_streams` is false for integer seeds — the two repetitions are copies of one another — while the same
-seed wrapped in a generator object gives distinct repetitions. -/
-theorem reps_distinct_streams_fails :
-    ¬ ∀ (s n : Nat), ((loop lcg n (.int s) 7).1).Nodup := by
-  intro h
-  have := h 5 2
-  revert this
-  decide
-
-example : (loop lcg 3 (.int 5) 7).1 = [5, 5, 5] ∧ ((loop lcg 3 (.gen (lcg.ofSeed 5)) 7).1).Nodup := by decide
+/-- non-vacuity on a toy congruential generator: three repetitions with an integer seed are three different draws, and
+they are those of a generator object seeded with it -/
+example : (loop lcg 3 (.int 5) 7).1 = [5, 241366, 943247] ∧ ((loop lcg 3 (.int 5) 7).1).Nodup
+    ∧ (loop lcg 3 (.gen (lcg.ofSeed 5)) 7).1 = [5, 241366, 943247] := by decide
 
 section flow
 variable {S G D : Type}
@@ -97,9 +106,8 @@ theorem schedule_independent {R : Type} (task : Nat → R) (n : Nat) (sched : Li
 
 /-- C15.d `partition_independent_partial`: tasks grouped into batches that share mutable objects (loss / algorithm
 objects handed to several repetitions without pickling in between) give the same results as fully separated tasks,
-**provided each task's result does not depend on the state of those objects**. Missing (and false on the tree, see
-`partition_independent_fails` and C13): state-dependent tasks — the fast squared-error loss keeps the previous
-repetition's extended weights (DESIGN §5-D9). -/
+**provided each task's result does not depend on the state of those objects**. Missing (see `partition_independent_fails`): state-dependent tasks — e.g. a loss object re-used with the `identity`
+mode after a weighted one (C13-F1); the simulation flows use one mode per case, so this does not arise there. -/
 theorem partition_independent_partial {R St : Type} (task : Nat → St → R × St) (s0 : St) (n : Nat)
     (hpure : ∀ i s s', (task i s).1 = (task i s').1)
     (batches : List (List Nat)) (hperm : batches.flatten.Perm (List.range n)) :
